@@ -79,8 +79,8 @@ def pyFloatLit (e : Env) (s : Str) : Option FloatLit :=
   | some s1 =>
     let t := numStrip e s1
     let sg := takeSign t
-    if ciEq sg.2 "inf".toList || ciEq sg.2 "infinity".toList then some (.inf sg.1)
-    else if ciEq sg.2 "nan".toList then some .nan
+    if ciEq sg.2 ['i', 'n', 'f'] || ciEq sg.2 ['i', 'n', 'f', 'i', 'n', 'i', 't', 'y'] then some (.inf sg.1)
+    else if ciEq sg.2 ['n', 'a', 'n'] then some .nan
     else
       match parseDecimalBody e sg.2 with
       | some (ip, fp, ex) => some (.fin sg.1 (digitsVal (ip ++ fp)) (ex - fp.length))
@@ -97,14 +97,14 @@ def floatDeserialize (e : CEnv) (s : Str) : Option PyFloat :=
   | some _ => some ⟨e.floatRepr s⟩
   | none => none
 
-def PyFloat.isNan (f : PyFloat) : Bool := f.repr = "nan".toList
-def PyFloat.isInf (f : PyFloat) : Bool := f.repr = "inf".toList || f.repr = "-inf".toList
+def PyFloat.isNan (f : PyFloat) : Bool := f.repr = ['n', 'a', 'n']
+def PyFloat.isInf (f : PyFloat) : Bool := f.repr = ['i', 'n', 'f'] || f.repr = ['-', 'i', 'n', 'f']
 
 /-- `FloatConverter.serialize` -/
 def floatSerialize (f : PyFloat) : Str :=
   if f.isNan then Tables.floatNaN
-  else if f.repr = "inf".toList then Tables.floatInf
-  else if f.repr = "-inf".toList then Tables.floatNegInf
+  else if f.repr = ['i', 'n', 'f'] then Tables.floatInf
+  else if f.repr = ['-', 'i', 'n', 'f'] then Tables.floatNegInf
   else
     let u := if Tables.floatUsesUpper then f.repr.map upperAscii else f.repr
     replaceAll Tables.floatReplaceFrom Tables.floatReplaceTo u
@@ -114,7 +114,7 @@ double (except NaN), and `0.0 == -0.0` -/
 def PyFloat.pyEq (a b : PyFloat) : Bool :=
   if a.isNan || b.isNan then false
   else a.repr = b.repr ||
-    ((a.repr = "0.0".toList || a.repr = "-0.0".toList) && (b.repr = "0.0".toList || b.repr = "-0.0".toList))
+    ((a.repr = ['0', '.', '0'] || a.repr = ['-', '0', '.', '0']) && (b.repr = ['0', '.', '0'] || b.repr = ['-', '0', '.', '0']))
 
 /-! ### Decimal -/
 
@@ -130,11 +130,11 @@ def decimalParse (e : Env) (s : Str) : Option Dec :=
   let t := (e.strip s).filter (· ≠ '_')
   let sg := takeSign t
   let low := sg.2.map lowerAscii
-  if low == "inf".toList || low == "infinity".toList then some (.inf sg.1)
-  else if "nan".toList.isPrefixOf low then
+  if low == ['i', 'n', 'f'] || low == ['i', 'n', 'f', 'i', 'n', 'i', 't', 'y'] then some (.inf sg.1)
+  else if ['n', 'a', 'n'].isPrefixOf low then
     let d := spanDigits e (sg.2.drop 3)
     if d.2.isEmpty then some (.nan sg.1 false (digitsVal d.1)) else none
-  else if "snan".toList.isPrefixOf low then
+  else if ['s', 'n', 'a', 'n'].isPrefixOf low then
     let d := spanDigits e (sg.2.drop 4)
     if d.2.isEmpty then some (.nan sg.1 true (digitsVal d.1)) else none
   else
@@ -154,9 +154,9 @@ def formatF : Dec → Str
         if ds.length > k then ds.take (ds.length - k) ++ '.' :: ds.drop (ds.length - k)
         else '0' :: '.' :: (List.replicate (k - ds.length) '0' ++ ds)
     if neg then '-' :: body else body
-  | .inf neg => if neg then "-Infinity".toList else "Infinity".toList
+  | .inf neg => if neg then ['-', 'I', 'n', 'f', 'i', 'n', 'i', 't', 'y'] else ['I', 'n', 'f', 'i', 'n', 'i', 't', 'y']
   | .nan neg sg diag =>
-    (if neg then ['-'] else []) ++ (if sg then ['s'] else []) ++ "NaN".toList
+    (if neg then ['-'] else []) ++ (if sg then ['s'] else []) ++ ['N', 'a', 'N']
       ++ (if diag = 0 then [] else natStr diag)
 
 /-- `DecimalConverter.deserialize` for a `str` -/
@@ -167,7 +167,7 @@ def decimalDeserialize (e : Env) (s : Str) : Option Dec := decimalParse e s
 def decimalSerialize (d : Dec) : Str :=
   match d with
   | .inf neg =>
-    replaceAll Tables.decInfFrom Tables.decInfTo (if neg then "-Infinity".toList else "Infinity".toList)
+    replaceAll Tables.decInfFrom Tables.decInfTo (if neg then ['-', 'I', 'n', 'f', 'i', 'n', 'i', 't', 'y'] else ['I', 'n', 'f', 'i', 'n', 'i', 't', 'y'])
   | _ => if Tables.decFormatSpec = ['f'] then formatF d else []
 
 /-- the signed integer `±coeff × 10^(exp - m)` for a common scale `m ≤ exp` -/
